@@ -179,3 +179,45 @@ def crash_violation(summary, res, case, prefix=""):
     key = prefix + res.key
     summary.violation(key, "%s in case %s\n%s" % (res.status, res.cid, res.report[-3000:]), case)
     return True
+
+
+def cpp_str(b):
+    return '"' + "".join("\\x%02x" % c for c in b) + '"'
+
+
+def fuzz_decls_inc(decls):
+    """C++ code building each declaration dict (used by harness/fuzz_opt.cpp)"""
+    L = ["// generated by lib/optrun.py fuzz_decls_inc()", "static const int N_DECLS = %d;" % len(decls),
+         "static void build_decl(int i, no::parser& p)", "{", "    switch (i)", "    {"]
+    for i, d in enumerate(decls):
+        L.append("    case %d:" % i)
+        L.append("    {")
+        for o in d["opts"]:
+            fn = {"o": "option", "m": "multi_option", "t": "toggle"}[o["kind"]]
+            L.append("        {")
+            L.append("            auto& o = p.%s(std::string(%s, %d));" % (fn, cpp_str(o["name"]), len(o["name"])))
+            if o.get("short"):
+                L.append("            o.short_name(std::string(%s, 1));" % cpp_str(o["short"]))
+            dv = o.get("default")
+            if dv is not None:
+                if o["kind"] == "o":
+                    L.append("            o.default_value(std::string(%s, %d));" % (cpp_str(dv), len(dv)))
+                elif o["kind"] == "m":
+                    L.append("            o.default_value(std::vector<std::string>{%s});" %
+                             ", ".join("std::string(%s, %d)" % (cpp_str(x), len(x)) for x in dv))
+                else:
+                    L.append("            o.default_value(%d);" % dv)
+            if o.get("optional") and o["kind"] in "om":
+                L.append("            o.optional();")
+            if o.get("rev") and o["kind"] == "t":
+                L.append("            o.allow_reverse();")
+            L.append("            (void)o;")
+            L.append("        }")
+        if d.get("pos") is not None:
+            L.append("        p.accept_positionals(%s);" % ("" if d["pos"] == "inf" else d["pos"]))
+        if d.get("greedy"):
+            L.append("        p.greedy_postionals();")
+        L.append("        break;")
+        L.append("    }")
+    L += ["    }", "}"]
+    return "\n".join(L) + "\n"
